@@ -226,14 +226,14 @@ func (l *LSTM) Apply(inputs []tensor.Tensor) ([]tensor.Tensor, error) {
 		return nil, err
 	}
 
-	outputMap := map[string]tensor.Tensor{
-		"Y": Y, "Y_h": Yh, "Y_c": Yc,
+	// The outputs are bound to the output names of the node by position, whatever these
+	// names are. Trailing outputs may be omitted.
+	allOutputs := []tensor.Tensor{Y, Yh, Yc}
+	if len(l.outputs) > len(allOutputs) {
+		return nil, ops.ErrInvalidInput("the lstm operator has at most 3 outputs", l)
 	}
 
-	result := []tensor.Tensor{}
-	for _, outputName := range l.outputs {
-		result = append(result, outputMap[outputName])
-	}
+	result := allOutputs[:len(l.outputs)]
 
 	return result, nil
 }
